@@ -51,10 +51,18 @@ def capture_stderr() -> Iterator[io.StringIO]:
         sys.stderr = old
 
 
-def write_files(d: str, files: Dict[str, str]) -> None:
-    for name, text in files.items():
+def write_files(d: str, files: Dict[str, str], symlinked: bool = False) -> None:
+    for k, (name, text) in enumerate(files.items()):
         p = os.path.join(d, name)
         os.makedirs(os.path.dirname(p), exist_ok=True)
+        if symlinked:
+            store = os.path.join(d, ".vendor")
+            os.makedirs(store, exist_ok=True)
+            real = os.path.join(store, f"blob{k}_v3.bitproto")
+            with open(real, "w", newline="") as f:
+                f.write(text)
+            os.symlink(os.path.relpath(real, os.path.dirname(p)), p)
+            continue
         with open(p, "w", newline="") as f:
             f.write(text)
 
